@@ -141,6 +141,30 @@ func check1(c Case) error {
 	if strings.Join(keys, "\x00") != strings.Join(want, "\x00") {
 		return fmt.Errorf("tag literal %s holds keys %q, want the sorted keys %q", lit, keys, want)
 	}
+	// the struct printed on its own right after other stand-alone renders have failed: the same tag literal
+	if len(u)%3 == 0 {
+		hx.FailedFragments()
+		var frag string
+		if perr := hx.Safe(func() error { frag = (&recipe.Builder{}).Stmt(st.Clone()).GoString(); return nil }); perr != nil {
+			return fmt.Errorf("the struct rendered on its own after failed stand-alone renders: %v", perr)
+		}
+		ft, err := litx.Scan(frag)
+		if err != nil {
+			return fmt.Errorf("the struct rendered on its own does not scan: %v\n%s", err, frag)
+		}
+		found := false
+		for _, t := range ft {
+			if t.Tok == token.STRING {
+				if fu, err := strconv.Unquote(t.Lit); err != nil || fu != u || found {
+					return fmt.Errorf("the struct rendered on its own (after other stand-alone renders had failed) holds the tag %s, inside a File %s\n%s", t.Lit, lit, frag)
+				}
+				found = true
+			}
+		}
+		if !found {
+			return fmt.Errorf("the struct rendered on its own (after other stand-alone renders had failed) holds no tag literal\n%s", frag)
+		}
+	}
 	// formatted output too: the file must be valid Go with the same tag value
 	fr := &recipe.File{Ctor: "NewFile", Args: []recipe.Text{"p"}, Body: []*recipe.Node{st}}
 	f := (&recipe.Builder{}).File(fr)
